@@ -34,6 +34,8 @@ type op struct {
 type program struct {
 	ID      string `json:"id"`
 	Threads [][]op `json:"threads"`
+	Budget  int    `json:"budget"` // schedules for this program (0: the default given on the command line)
+	Mode    string `json:"mode"`   // "rnd": seeded random schedules instead of depth-first enumeration
 }
 
 var errPC = fmt.Errorf("verif-pcaller")
@@ -307,16 +309,24 @@ func main() {
 			stats["events"] += len(o.Trace)
 			return true
 		}
-		if mode == "rnd" {
+		if mode == "rnd" || p.Mode == "rnd" {
 			r := rand.New(rand.NewSource(seed*7919 + int64(nprog)))
-			for i := 0; i < budget; i++ {
+			n := budget
+			if p.Budget > 0 {
+				n = p.Budget
+			}
+			for i := 0; i < n; i++ {
 				if !report(runOnce(&p, &randChooser{r})) {
 					break
 				}
 			}
 			continue
 		}
-		if vsched.Explore(budget, func(ch vsched.Chooser) *vsched.Outcome { return runOnce(&p, ch) }, report) {
+		b := budget
+		if p.Budget > 0 {
+			b = p.Budget
+		}
+		if vsched.Explore(b, func(ch vsched.Chooser) *vsched.Outcome { return runOnce(&p, ch) }, report) {
 			stats["programs_fully_explored"]++
 		}
 	}
